@@ -241,7 +241,10 @@ def check_params(part, m, over, campaign, rng, drive=True):
             a = rng.choice(addrs())
             rxid = a.get_rx_arbitration_id()
             pre = bytes([0xAA]) if a.requires_rx_extension_byte() and a.get_rx_extension_byte() == 0xAA else (bytes([0x99]) if a.requires_rx_extension_byte() else b'')
-            layer = isotp.TransportLayerLogic(rxfn=lambda: inbox.pop(0) if inbox else None, txfn=out.append, address=a, params=dict(over))
+            drive_params = dict(over)
+            if drive_params.get('blocking_send') is True:
+                drive_params['blocking_send'] = False       # blocking send() needs the worker thread of TransportLayer (C12/C13), not the bare logic
+            layer = isotp.TransportLayerLogic(rxfn=lambda: inbox.pop(0) if inbox else None, txfn=out.append, address=a, params=drive_params)
             for n in (1, 6, 7, 8, 60, 300, 5000):
                 try:
                     layer.send(bytes(n))
